@@ -406,7 +406,7 @@ pub fn run(ctx: &Ctx) -> (Outcome, String, Option<bool>) {
     let out = run_sharded(
         ctx,
         "covenant-spends",
-        ctx.scale(400, 10_000),
+        ctx.scale(5000, 60_000),
         || {
             (
                 proptest::collection::vec((any::<u8>(), any::<u64>()), 1..6),
